@@ -1182,6 +1182,8 @@ type ChanOp struct {
 	Select *ssa.Select
 	State  int
 	Fn     *ssa.Function
+	// ViaParam: the channel is a parameter of a (shared) helper; Field is what one of its call sites binds it to
+	ViaParam *ssa.Parameter
 }
 
 type SendSite struct {
@@ -1214,21 +1216,180 @@ func chanField(ch ssa.Value) *types.Var {
 	return nil
 }
 
+// chanParamFields: for a channel-typed parameter of a top-level module function that is only ever called
+// statically (its address is never taken), the struct fields the argument is loaded from at the call sites
+// of the module - a helper `deliver(inbound chan<- T, msg T)` shared by two clients operates on the channel
+// field of whichever client calls it.  A site whose argument is not a field load makes the parameter unknown.
+var chanParamFields = map[*ssa.Parameter][]*types.Var{}
+
+func (p *Program) computeChanParamFields() {
+	chanParamFields = map[*ssa.Parameter][]*types.Var{}
+	type key struct {
+		fn *ssa.Function
+		i  int
+	}
+	cand := map[key]*ssa.Parameter{}
+	for _, fn := range p.SrcFuncs() {
+		if fn.Parent() != nil {
+			continue
+		}
+		for i, prm := range fn.Params {
+			if _, ok := prm.Type().Underlying().(*types.Chan); ok {
+				cand[key{fn, i}] = prm
+			}
+		}
+	}
+	if len(cand) == 0 {
+		return
+	}
+	unknown := map[*ssa.Function]bool{}
+	sites := map[key][]ssa.Value{}
+	for _, fn := range p.SrcFuncs() {
+		for _, b := range fn.Blocks {
+			for _, in := range b.Instrs {
+				var callee *ssa.Function
+				if ci, ok := in.(ssa.CallInstruction); ok {
+					callee = ci.Common().StaticCallee()
+					if callee != nil {
+						for i, a := range ci.Common().Args {
+							if _, ok := cand[key{callee, i}]; ok {
+								sites[key{callee, i}] = append(sites[key{callee, i}], a)
+							}
+						}
+					}
+				}
+				for _, op := range in.Operands(nil) {
+					if f, ok := (*op).(*ssa.Function); ok && f != callee {
+						unknown[f] = true
+					} else if ok {
+						// the callee operand itself is fine; the same function among the arguments is not
+						if ci, isCall := in.(ssa.CallInstruction); isCall {
+							for _, a := range ci.Common().Args {
+								if a == ssa.Value(f) {
+									unknown[f] = true
+								}
+							}
+						}
+					}
+				}
+			}
+		}
+	}
+	for k, prm := range cand {
+		if unknown[k.fn] || len(sites[k]) == 0 {
+			continue
+		}
+		var fs []*types.Var
+		ok := true
+		for _, a := range sites[k] {
+			f := chanField(a)
+			if f == nil {
+				ok = false
+				break
+			}
+			dup := false
+			for _, g := range fs {
+				dup = dup || g == f
+			}
+			if !dup {
+				fs = append(fs, f)
+			}
+		}
+		if ok {
+			chanParamFields[prm] = fs
+		}
+	}
+}
+
+func stripChanConv(v ssa.Value) ssa.Value {
+	for i := 0; i < 6; i++ {
+		switch x := v.(type) {
+		case *ssa.ChangeType:
+			v = x.X
+		case *ssa.Convert:
+			v = x.X
+		case *ssa.MakeInterface:
+			v = x.X
+		default:
+			return v
+		}
+	}
+	return v
+}
+
+// chanFieldsOf: the field(s) a channel value is loaded from - one for a field load, the call sites' fields for
+// a channel parameter (also when captured by a closure of the function).
+func chanFieldsOf(ch ssa.Value) []*types.Var {
+	if f := chanField(ch); f != nil {
+		return []*types.Var{f}
+	}
+	v := ch
+	for i := 0; i < 6; i++ {
+		switch x := v.(type) {
+		case *ssa.ChangeType:
+			v = x.X
+			continue
+		case *ssa.Convert:
+			v = x.X
+			continue
+		case *ssa.MakeInterface:
+			v = x.X
+			continue
+		}
+		break
+	}
+	v = unspill(resolveFree(v))
+	if prm, ok := v.(*ssa.Parameter); ok {
+		return chanParamFields[prm]
+	}
+	return nil
+}
+
+// chanIs: ch is (on every call path) loaded from f, or a channel parameter that some call site binds to f.
+func chanIs(ch ssa.Value, f *types.Var) bool {
+	if f == nil {
+		return false
+	}
+	for _, g := range chanFieldsOf(ch) {
+		if g == f {
+			return true
+		}
+	}
+	return false
+}
+
 func (p *Program) index() *indexes {
 	if p.idx != nil {
 		return p.idx
 	}
 	ix := &indexes{stores: map[*types.Var][]*ssa.Store{}}
 	knxnet := modPath + "/knx/knxnet"
+	p.computeChanParamFields()
+	addOp := func(o ChanOp) {
+		fs := chanFieldsOf(o.Chan)
+		if len(fs) == 0 {
+			ix.chanOps = append(ix.chanOps, o)
+			return
+		}
+		if chanField(o.Chan) == nil {
+			if prm, ok := unspill(resolveFree(stripChanConv(o.Chan))).(*ssa.Parameter); ok {
+				o.ViaParam = prm
+			}
+		}
+		for _, f := range fs {
+			o.Field = f
+			ix.chanOps = append(ix.chanOps, o)
+		}
+	}
 	for _, fn := range p.SrcFuncs() {
 		for _, b := range fn.Blocks {
 			for _, in := range b.Instrs {
 				switch x := in.(type) {
 				case *ssa.Send:
-					ix.chanOps = append(ix.chanOps, ChanOp{Kind: "send", Chan: x.Chan, Field: chanField(x.Chan), Instr: x, Fn: fn})
+					addOp(ChanOp{Kind: "send", Chan: x.Chan, Instr: x, Fn: fn})
 				case *ssa.UnOp:
 					if x.Op == token.ARROW {
-						ix.chanOps = append(ix.chanOps, ChanOp{Kind: "recv", Chan: x.X, Field: chanField(x.X), Instr: x, Fn: fn})
+						addOp(ChanOp{Kind: "recv", Chan: x.X, Instr: x, Fn: fn})
 					}
 				case *ssa.Select:
 					for i, st := range x.States {
@@ -1236,11 +1397,11 @@ func (p *Program) index() *indexes {
 						if st.Dir == types.SendOnly {
 							k = "sel-send"
 						}
-						ix.chanOps = append(ix.chanOps, ChanOp{Kind: k, Chan: st.Chan, Field: chanField(st.Chan), Instr: x, Select: x, State: i, Fn: fn})
+						addOp(ChanOp{Kind: k, Chan: st.Chan, Instr: x, Select: x, State: i, Fn: fn})
 					}
 				case *ssa.Range:
 					if _, ok := x.X.Type().Underlying().(*types.Chan); ok {
-						ix.chanOps = append(ix.chanOps, ChanOp{Kind: "range", Chan: x.X, Field: chanField(x.X), Instr: x, Fn: fn})
+						addOp(ChanOp{Kind: "range", Chan: x.X, Instr: x, Fn: fn})
 					}
 				case *ssa.Next:
 					// channel range loops are lowered to UnOp ARROW with CommaOk, not Next
@@ -1254,7 +1415,7 @@ func (p *Program) index() *indexes {
 				if c, ok := in.(ssa.CallInstruction); ok {
 					if builtinName(c) == "close" && len(c.Common().Args) == 1 {
 						ch := c.Common().Args[0]
-						ix.chanOps = append(ix.chanOps, ChanOp{Kind: "close", Chan: ch, Field: chanField(ch), Instr: in, Fn: fn})
+						addOp(ChanOp{Kind: "close", Chan: ch, Instr: in, Fn: fn})
 					}
 					if isSocketSend(c, knxnet) {
 						ss := SendSite{Call: c, Fn: fn}
